@@ -770,7 +770,7 @@ class Interp(Folder):
             f.__self__, (dict, list, set, str, tuple, DT, type({}.keys()), _re.Pattern)
         ):
             return _py(lambda: f(*args, **kwargs))
-        if callable(f) and getattr(f, "__module__", None) in ("operator", "_operator", "copy", "re"):
+        if callable(f) and getattr(f, "__module__", None) in ("operator", "_operator", "copy", "re", "math"):
             return _py(lambda: f(*args, **kwargs))
         if callable(f) and getattr(f, "__module__", None) == "itertools":
             return _py(lambda: list(f(*[self.iterate(a_) for a_ in args])))
